@@ -36,6 +36,9 @@ def fn_operand_name(fd, op):
 def rules(ctx):
     from .C03 import location_names_are_total
     location_names_are_total(ctx, "R5")  # a request whose answer uses the overflow depot is answered, not dropped
+    # the instance that is solved is the one the request carried (loader rules shared with C17)
+    from .C17 import loader_subset
+    loader_subset(ctx, ["dead-head-matrix", "DeadHeadTrip-new", "Locations-new"])
     o, fd = ctx.require_fn("R1.route-table", "T7", MAIN, "GET /health -> healthy and POST /solve -> solve are registered")
     if fd is not None:
         routes = calls_to(fd, ROUTE)
